@@ -627,7 +627,27 @@ def rule_tsv_reader(repo, col):
                   rule, CONV, '_convert', 'forward:header_value', c,
                   'forwarded', '--output-metadata-id is not forwarded')
         mf = kwarg(c, 'metadata_formatter')
-        col.check(mf is not None and dotted(mf) == 'obs_md_fmt_f', rule,
+
+        def selected(e):
+            # registry[<the tsv_metadata_formatter option>] or a local
+            # bound to it
+            if isinstance(e, ast.Subscript) and 'formatters' in (
+                    dotted(e.value) or '') and any(
+                    isinstance(x, ast.Name) and
+                    x.id == 'tsv_metadata_formatter'
+                    for x in ast.walk(e.slice)):
+                return True
+            if isinstance(e, ast.Name):
+                vals = [a_.value for a_ in ast.walk(f) if isinstance(
+                    a_, ast.Assign) and any(isinstance(t, ast.Name) and
+                                            t.id == e.id
+                                            for t in a_.targets)]
+                return any(selected(v) for v in vals
+                           if not isinstance(v, ast.Name))
+            if isinstance(e, ast.IfExp):
+                return selected(e.body) or selected(e.orelse)
+            return False
+        col.check(mf is not None and selected(mf), rule,
                   CONV, '_convert', 'forward:metadata_formatter', c,
                   'the selected formatter is forwarded',
                   'the selected tsv metadata formatter is not forwarded')
